@@ -14,7 +14,7 @@ func VC15_SignerFault() {
 	signer := vsym.Signer("k1")
 	serial := vsym.BytesN("serial", 2)
 	vsym.Assume(serial[0] != 0)
-	cert := vsym.Cert(signer, vsym.BytesN("cert.raw", 5), vsym.BytesN("issuer", 3), serial)
+	cert := vsym.Cert(signer, serial)
 	out, err := SignPKCS7(signer, cert, oid.oid, content)
 	if vsym.Bool("probe") { // natively: did the signer fail? (model: fault bit)
 	}
